@@ -251,4 +251,31 @@ PROPS["C09"] = {
     "level_note": "partial: the theorem covers the freshness clause for the heartbeat routine; voter counting is covered by H3 only.",
 }
 
+def scenario(engine, pid, nq, nt):
+    return {"engine": engine, "driver": "cluster-" + pid, "bin": "h2.test", "quick": ["-n", str(nq)], "thorough": ["-n", str(nt)], "ok_codes": [17], "timeout": 6000}
+
+PROPS["C13"] = {
+    "lean_module": "RaftVerif.Props.C13",
+    "theorems": [
+        T("LS.isolated_leader_steps_down", "timed model of checkLeaderLease and its re-arming: if from t0 on fewer than quorum-1 other voters answer, the server is leader only at instants <= t0 + 2*lease (lease >= 10 ms), for every arrival pattern of the remaining answers; hypothesis: the main loop serves the timer when it is due"),
+        T("LS.responsive_majority_keeps_leader", "if a quorum of voters keeps answering within the lease the check never deposes the leader"),
+    ],
+    "engines": [scenario("lease", "C13", 60, 1500)],
+    "assumptions": [H3_NOTE, "virtual time (synctest): scheduling latency of the main goroutine is not part of the measurement; 10 ms of slack for answers already travelling when the leader is cut off",
+                    "for 5 ms <= LeaderLeaseTimeout < 10 ms the bound is lease + 10 ms (stated in DESIGN.md, outside the property's quantifier)"],
+}
+
+PROPS["C20"] = {
+    "lean_module": "RaftVerif.Props.C20",
+    "theorems": [
+        T("UR.restore_effects", "an accepted Restore: the snapshot's index is above both its own index and every earlier index, the FSM position equals it, every in-flight call is answered ErrAbortedByRestore and nothing stays in flight, every later entry gets a larger index"),
+        T("UR.restore_refused_when_unstable", "refused, without effect, while a membership change is uncommitted or a leadership transfer is in progress"),
+        T("UR.restore_burns_index", "max(meta.Index, last)+1 is above both"),
+    ],
+    "engines": [scenario("restore", "C20", 100, 3000)],
+    "assumptions": [H3_NOTE, "user Restore is an epoch boundary: the agreed-history monitors of C02/C03 are not applied to restore runs; C20's monitor checks the leader's FSM at the restore, indexes of later writes, aborted writes, and the final states of all servers",
+                    "the refusal clause is proved for the model and not exercised by the harness"],
+    "level_note": "partial: the leader-side bookkeeping is a small hand-written model of restoreUserSnapshot; its tie is the H3 restore scenario only (no stepping).",
+}
+
 HOOK_COMMITS = ["dfecdf5"]
